@@ -1,7 +1,7 @@
 #!/usr/bin/env python3
 """C19 — text importers (CSV, LibSVM): proofs (Properties_C19.v) + correspondence of the extracted byte-level
 model with the freshly compiled importers on generated files (exact on the numeric forms on which Boost.Spirit
-and the model's lexer provably agree) + spec monitor (well-formedness / exception type / crash / hang /
+and the model's lexer provably agree; exporters incl. exportSparseData: exported text byte for byte, re-imported dataset line-exact) + spec monitor (well-formedness / exception type / crash / hang /
 export-import round trip) on every overload, also under ASan+UBSan."""
 import os, sys, re, struct, signal
 sys.path.insert(0, os.path.dirname(os.path.abspath(__file__)))
@@ -190,7 +190,7 @@ def gen_value(rng, prec):
 
 def gen_xcsv(rng):
     variant = rng.choice(["data", "cls", "reg"]); prec = rng.choice("df"); lp = rng.choice("FL")
-    sep = rng.choice([",", ";", " ", "\t", "|", ":"]); mb = rng.choice([1, 2, 3, 256]); nout = rng.randint(1, 3)
+    sep = rng.choice([",", ";", " ", " ", "\t", "\t", "|", ":", "\x0b", "\x0c"]); mb = rng.choice([1, 2, 3, 256]); nout = rng.randint(1, 3)
     nrow = rng.randint(1, 8); ncol = rng.randint(1, 5)
     zero_label = rng.random() < 0.9
     labs = [rng.randint(0 if zero_label else 1, 3) for _ in range(nrow)]
@@ -369,7 +369,8 @@ def main():
         "maximumBatchSize >= 1 for the CSV importers (0 divides by zero in optimalBatchSizes: outside the domain, the model says Fault)",
         "numbers whose decimal exponent leaves the range of the target type (|e| > ~300 for double_, > ~30 for float_) are outside the exact comparison: Spirit's scale() fails there and the verdict is only monitored",
         "separator and comment character are not characters of a number ([0-9+-.eE?] and letters of nan/inf), not a line end, and differ from each other",
-        "round trip: finite values; exported numbers are compared as printed tokens in the theorem and as doubles by the monitor",
+        "round trip: finite values; exported numbers are compared as printed tokens in the theorem and as doubles by the monitor; class labels below 2^31, feature indices below 2^32 - 1; CSV classification files: the separator is not '.'",
+        "LibSVM round trip: stored indices strictly increasing (invariant of compressed vectors); a compressed element keeps its non-zeros only, so the dimension comes back only up to the largest stored index unless highestIndex is passed",
         "memory safety, termination and exception type of the compiled Spirit parsers on arbitrary bytes are observed at run time (ASan+UBSan, SIGALRM), not proved"]
     ck.proofs()
     model = extract_model(PID, "C19Extract.v", "c19_driver.ml")
@@ -385,7 +386,9 @@ def main():
     cases = []
     def add(head, payload, force=None):
         # Data<float>: Spirit's float_ rejects decimal exponents beyond float range (scale() fails): verdict not modelled there
-        cases.append((case_line(head, payload), force or exactness(payload, 30 if head[:2] == ["SCL", "f"] else 290)))
+        lvl = exactness(payload, 30 if head[:2] == ["SCL", "f"] else 290)
+        # a forced "masked" never upgrades a text whose verdict is outside the modelled range (float_ exponents > 30)
+        cases.append((case_line(head, payload), "monitor" if force == "monitor" or lvl == "monitor" else (force or lvl)))
     def mode_of_line(l):
         t = l.split(" ")
         if t[0][0] == "X": return "roundtrip"
@@ -418,7 +421,7 @@ def main():
             h = gen_csv(rng)[0] if k < 0.5 else gen_scl(rng)[0] if k < 0.65 else gen_svm(rng)[0]
             add(h, noise(rng) if rng.random() < 0.6 else mutate(rng, (gen_csv(rng)[1] if h[0] != "SVM" else gen_svm(rng)[1]), bytes(range(256)), 6), "monitor")
         for _ in range(250 * scale): cases.append((gen_xcsv(rng), "roundtrip"))
-        for _ in range(120 * scale): cases.append((gen_xsvm(rng), "roundtrip"))
+        for _ in range(300 * scale): cases.append((gen_xsvm(rng), "roundtrip"))
 
     lines = [c for c, _ in cases]
     hargs = ["--timeout=20"]
@@ -443,7 +446,7 @@ def main():
     disagreements = []
     def note(key, line, msg, extra=None):
         if key not in found: found[key] = (line, msg, extra or {})
-    n_exact = n_masked = n_mon = n_rt = 0
+    n_exact = n_masked = n_mon = n_rt = n_xsvm = 0; xsvm_levels = {}
     tolerated_unsorted = 0
     for i, ((line, mode), (m_o, _, _), (i_o, rc, err)) in enumerate(zip(cases, mo, io)):
         t = line.split(" ")
@@ -471,6 +474,16 @@ def main():
             if t[0] == "XCSV":
                 lvl = exactness(t[-1].encode())
                 if lvl == "exact" and strip_impl(i_o) != m_o: disagreements.append(i)
+                elif lvl == "masked" and mask(strip_impl(i_o)) != mask(m_o): disagreements.append(i)
+            else:
+                # XSVM: export_svm_* = exportSparseData byte for byte (the text is the first field), then the re-import;
+                # the values of the text are the printed %g tokens: exactness is decided on the exported text
+                mt = re.match(r"X text=([0-9a-f]*) ", i_o)
+                lvl = exactness(bytes.fromhex(mt.group(1))) if mt else "exact"
+                n_xsvm += 1; xsvm_levels[lvl] = xsvm_levels.get(lvl, 0) + 1
+                if lvl == "monitor":
+                    if i_o.split(" ")[1] != m_o.split(" ")[1]: disagreements.append(i)       # the exported text still has to agree
+                elif lvl == "exact" and strip_impl(i_o) != m_o: disagreements.append(i)
                 elif lvl == "masked" and mask(strip_impl(i_o)) != mask(m_o): disagreements.append(i)
             continue
         if mode == "monitor": n_mon += 1; continue
@@ -519,7 +532,7 @@ def main():
     if disagreements:
         log("disagreements: %d" % len(disagreements))
         for i in disagreements[:8]: log("  case: %s\n   model: %s\n   impl:  %s" % (cases[i][0][:300], mo[i][0][:300], io[i][0][:300]))
-    ck.oblige("correspondence C19Model (csv_import_*, svm_import_*, export_*) = shark importers/exporters on %d files (%d exact, %d value-masked)" % (n_exact + n_masked + n_rt, n_exact + n_rt, n_masked),
+    ck.oblige("correspondence C19Model (csv_import_*, svm_import_*, export_*, export_svm_*) = shark importers/exporters on %d files (%d exact, %d value-masked; %d of them LibSVM export->import)" % (n_exact + n_masked + n_rt, n_exact + n_rt, n_masked, n_xsvm),
               not disagreements, "%d disagreements, first: %s" % (len(disagreements), cases[disagreements[0]][0][:160]) if disagreements else "")
     unknown = [k for k in sorted(found) if ck.match_known(k) is None]     # recorded findings do not fail the obligation
     ck.oblige("spec monitor (well-formed dataset or shark::Exception, no crash/hang/foreign exception, round trip) on %d cases" % len(cases), not unknown,
@@ -539,9 +552,10 @@ def main():
     ck.cov["distinct_nontrivial"] = len(set(c for c, m in cases if len(c.split(" ")[-1]) >= 12))
     ck.cov["rule"] = ("generated CSV / scalar / LibSVM files (all overloads: data|cls|reg x double|float x label first|last x 6 separators x 2 comment chars x batch sizes 1..256 x string|file; "
                       "LibSVM cls|reg x double|float x dense|compressed x highestIndex x batchSize 0..256) with missing values, comments, mixed line ends, ragged rows, special tokens, "
-                      "their 1-3 byte mutations, byte noise, and export->import round trips; non-trivial = payload of at least 6 bytes; distinct = distinct case lines; "
+                      "their 1-3 byte mutations, byte noise, and export->import round trips (CSV: 8 separators incl. blank/tab/VT/FF, label first|last; LibSVM: dense|compressed x cls|reg, model export_svm_* vs exportSparseData); non-trivial = payload of at least 6 bytes; distinct = distinct case lines; "
                       "every case runs in the -O2 build, a third plus all LibSVM/noise cases (thorough: all) also under ASan+UBSan")
     ck.cov["samples"] = [cases[0][0][:200], cases[len(cases) // 2][0][:200]]
+    ck.notes["libsvm_roundtrip_levels"] = xsvm_levels
     ck.notes["case_mix"] = kinds; ck.notes["implementation_verdicts"] = verdicts
     ck.notes["unsorted_records_accepted_wellformed"] = tolerated_unsorted
     ck.notes["sanitizer_cases"] = len(asan_out) if asan_out else 0
